@@ -106,6 +106,15 @@ func deserializeParams(batch arrow.RecordBatch, target reflect.Type) (reflect.Va
 			batch.Schema(),
 		)
 	}
+	// ReadRequest exempts external-location and shm pointer batches from its
+	// one-row rule on the promise that the caller resolves them first. A
+	// pointer batch nobody resolved (no external config on this server, or a
+	// fetched/unwrapped inner batch that is itself empty) still has zero rows
+	// here, and reading row 0 of it below would index past the column buffers
+	// and panic outside any handler recover.
+	if len(desc.Fields) > 0 && batch.NumRows() < 1 {
+		return reflect.Value{}, fmt.Errorf("expected 1 row in parameter batch, got %d", batch.NumRows())
+	}
 
 	result := reflect.New(target).Elem()
 
